@@ -154,6 +154,27 @@ def vectors(run):
                 hol = [[dt(h)] if h else [E()] for h in rec['hol']]
                 for i in range(len(rec['v'])):
                     V.append(('_network_days', (dt(rec['s']), dt(rec['n0'] + i), hol)))
+    # the date helpers once more with times of day (same day / adjacent days, start later in the day than the end)
+    tod = [datetime.timedelta(0), datetime.timedelta(hours=9), datetime.timedelta(hours=18, minutes=30), datetime.timedelta(hours=23, minutes=59, seconds=59)]
+    for s1 in (45292, 45296, 45297, 45350):            # a Monday, a Friday, a Saturday, a leap day's neighbourhood
+        for ds in (0, 1, -1, 3):
+            for t1 in tod:
+                for t2 in tod:
+                    a_, b_ = dt(s1) + t1, dt(s1 + ds) + t2
+                    V.append(('_network_days', (a_, b_, None)))
+                    V.append(('_network_days', (a_, b_, [[dt(s1)], [dt(s1 + 1) + t1]])))
+                    for u in ('D', 'M', 'Y', 'YM', 'MD', 'YD'):
+                        V.append(('_datedif', (a_, b_, u)))
+                    V.append(('_compare', ('<', a_, b_)))
+                    V.append(('_compare', ('==', a_, b_.date())))
+            for k in (-13, -1, 0, 1, 12):
+                for t1 in tod:
+                    V.append(('_edate', (dt(s1) + t1, k)))
+                    V.append(('_eomonth', (dt(s1) + t1, k)))
+                    V.append(('_edate', (dt(s1) + t1, k + 0.5)))
+    for h in ('_year', '_month', '_day', '_excel_value_to_string'):
+        for t1 in tod:
+            V.append((h, (dt(45350) + t1,)))
     # C17
     for kind in ('LRM', 'SEARCH', 'VALUE', 'CONCAT'):
         r = run.tlc('Gen_C17', ['INIT Init', 'NEXT Next', f'CONSTANT Kind = "{kind}"', 'CONSTANT Alphabet = {97, 66, 63, 126, 46}', 'CONSTANT L = 3',
